@@ -228,6 +228,10 @@ def execute(case: dict) -> dict:
             the stream ends); records how the stream ended if it did"""
             k = 0
             try:
+                if limit is not None:
+                    for _ in range(case.get("read_delay", 0)):
+                        await anyio.sleep(0)  # let several records pile up in the transport
+
                 while limit is None or len(got) < limit:
                     n = rsizes[k % len(rsizes)]
                     k += 1
@@ -432,6 +436,17 @@ def all_cases(tier: str, seed: int):  # noqa: ANN201
                     d = rng.randrange(2)
                     yield base_case(ver, compat, pol, [d, rng.randrange(0, lens[d] + 1)])
 
+    # several small records coalesced into ONE transport chunk, read with max_bytes values
+    # around the sums of the first two / three records (a receive() that drains more than
+    # one record from the BIO must still respect max_bytes)
+    for ver in ("1.2", "1.3"):
+        for s_ in (10, 40, 100):
+            for k in (3, 4, 6):
+                for m in sorted({s_ + 1, 2 * s_ - 1, 2 * s_ + 1, (5 * s_) // 2, 3 * s_ - 1, 3 * s_ + 1}):
+                    yield {"cfg": "stock", "ver": ver, "compat": True, "policy": ["coalesce", "coalesce"],
+                           "sizes": [[s_] * k, [s_] * k], "rsizes": [[m], [m]], "closer": "client",
+                           "cut": None, "seed": 1, "read_delay": 40, "send_lat": [0]}  # fmt: skip
+
     sizes_pool = [0, 1, 2, 100, 1000, 16383, 16384, 16385, 20000, 40000, 70000, 140000]
     for _ in range(900 if tier == "thorough" else 60):
         ver = rng.choice(["1.2", "1.3"])
@@ -445,6 +460,9 @@ def all_cases(tier: str, seed: int):  # noqa: ANN201
                 "send_lat": [rng.choice([0, 0, 1, 2, 3]) for _ in range(5)]}  # fmt: skip
         if sum(map(sum, sizes)) > 30000 and "1byte" in case["policy"]:
             case["policy"] = ["random", "random"]
+
+        if rng.random() < 0.3:
+            case["read_delay"] = rng.choice([5, 20, 60])
 
         if rng.random() < 0.4:
             case["cut"] = [rng.randrange(2), rng.randrange(0, 3000 + sum(sizes[0]) + sum(sizes[1]))]
